@@ -160,7 +160,7 @@ contract(O + "Order.add_loan", props=["C11"], types={"loan_id": "Id"},
          ensures=[("added", "forall(lambda s=Id: (s in self._loan_ids) == (old(s in self._loan_ids) or s == loan_id))")],
          modifies=["content(self._loan_ids)"])
 
-contract(O + "Order.not_filled", props=["C05"], ensures=[], modifies=[])
+contract(O + "Order.not_filled", props=["C05"], ensures=[("noop", "unchanged(self)")], modifies=[])
 for cls in ("MarketOrder", "StopOrder"):
     contract(O + cls + ".not_filled", props=["C05"],
              requires=[("open", "st_open(self)")],
